@@ -122,6 +122,8 @@ def check(db, rep):
     r1 = rep.rule('r1', 'REFRESH: every write of a watched storage part is followed on every path to a success exit by the refreshes that kind of write requires', 20)
     refresh_rule(db, rep, r1, M, ((SCHEMA, _classify_schema, _families_schema), (THES, _classify_thes, _families_thes)))
     _rest(db, rep, M)
+    r6 = rep.rule('r6', 'AUDIT-ON-RESET-STATE: the incremental re-analysis audits constituents in the state the from-scratch analysis audits them in - the parse records of the edited constituent and all its dependants are cleared before any of them is audited', 2)
+    stale_audit_rule(db, r6)
     # the incremental graph maintenance the schema relies on (shared with C14 r6 / r1): a per-constituent update must drop the old edges
     r5 = rep.rule('r5', 'GRAPH-UPDATE (shared with C14): UpdateFor replaces the inputs of the item by updater(item) on every path with a sound graph; SetItemInputs drops the old inputs on every path', 2)
     from rules import C14
@@ -255,7 +257,8 @@ def _rest(db, rep, M):
     allowed = {'ParseCst', 'SaveInfoTo', 'ResetInfo', 'Emplace', 'Insert', 'InsertCopy', 'Load', 'Erase', 'Schema', 'operator='}
     writers = set()
     for f in db.methods_of(SCHEMA):
-        if any(ev[0] == 'info' for ev in M.direct_events(f)):
+        evs = [ev for ev in M.direct_events(f) if ev[0] == 'info']
+        if evs and not all(ev[1] == 'call:Reset' for ev in evs):      # clearing a record is always allowed: it only forces a re-analysis
             writers.add(f.name.split('::')[-1])
     extra = writers - allowed
     if extra:
@@ -394,3 +397,52 @@ def _on_term_change(db, r3):
         r3.violation(inst, '%s:%d' % (f.file, f.line), '; '.join(problems))
     else:
         r3.ok(inst, 'terms of the closure in dependency order, then definitions of the whole closure', '%s:%d' % (f.file, f.line))
+
+
+def stale_audit_rule(db, rule):
+    """AUDIT-ON-RESET-STATE (shared with C11, C13): the from-scratch analysis (UpdateState) clears every parse record before it audits
+    constituents in dependency order; the auditor resolves the type of a mentioned global from those records. The incremental path must audit
+    in the same kind of state: every call of Schema::ParseCst has to be dominated, in its caller, by a bulk reset of the records (ResetInfo, or
+    a loop that resets the record of every member of the dependants' closure of the edited constituent). Otherwise a definition is checked
+    against the outdated type of a dependant - or of itself - and a dependency loop created by the edit stays VERIFIED."""
+    from engine.cfgq import paths_avoiding
+    pc = db.fn(SCHEMA + '::ParseCst', required=False)
+    if pc is None:
+        rule.broken('anchor vanished: Schema::ParseCst')
+        return
+    callers = [f for f in db.methods_of(SCHEMA) if f.body >= 0 and any(n.get('cs') == SCHEMA + '::ParseCst' for n in f.calls())]
+    if not callers:
+        rule.broken('Schema::ParseCst has no caller')
+        return
+    for f in callers:
+        inst = f.name.split('::')[-1]
+        parse_pos = [f.position_of(n) for n in f.calls() if n.get('cs') == SCHEMA + '::ParseCst']
+        resets = []
+        for n in f.calls():
+            if n.get('cs') == SCHEMA + '::ResetInfo':
+                resets.append((f.position_of(n), 'ResetInfo()'))
+        for lp in [x for x in f.walk() if x['k'] == 'CXXForRangeStmt']:
+            body_calls = list(f.calls(f.stmts[lp['body']]))
+            if any((c.get('cs') or '').endswith('ParsingInfo::Reset') for c in body_calls) and not any(c.get('cs') == SCHEMA + '::ParseCst' for c in body_calls):
+                rng = f.strip(f.stmts[lp['range']])
+                closure = False
+                if rng is not None and rng['k'] == 'DeclRefExpr':
+                    for s0 in f.rec['stmts']:
+                        if s0['k'] == 'DeclStmt':
+                            for d in s0.get('decls', []):
+                                if d.get('did') == rng.get('did') and 'init' in d and any((c.get('cs') or '').endswith('::ExpandOutputs') for c in f.calls(f.stmts[d['init']])):
+                                    closure = True
+                if rng is not None and (closure or (rng['k'] == 'MemberExpr' and rng.get('member') == 'info')):
+                    # the loop is left on every path to the audit: its exit position dominates
+                    resets.append((f.position_of(f.stmts[lp['range']]), 'a loop resetting the records of the closure of the edited constituent'))
+        resets = [(p, w) for p, w in resets if p is not None]
+        entry = f.graph()[1]
+        ok_by = None
+        for p, w in resets:
+            if not paths_avoiding(f, [entry], [p], [(q, '') for q in parse_pos if q is not None]):
+                ok_by = w
+                break
+        if ok_by:
+            rule.ok(inst, 'every ParseCst call is preceded by %s' % ok_by, '%s:%d' % (f.file, f.line))
+        else:
+            rule.violation(inst, '%s:%d' % (f.file, f.line), '%s audits a constituent while the parse records of its dependants (and its own) still hold the results of the previous definition: `D1 := X1`, `D2 := D1`, then D1 := D2∪D2 is checked against the old type of D2 and both stay VERIFIED (a fresh analysis marks both INCORRECT); D1 := ℬ(D1) is accepted against its own old type' % inst)
